@@ -24,3 +24,10 @@ package nodestate
 //@   ensures obs.state_replica [C04,C10,C11]: (result == mysql.ReplicationRunning <==> ss.ReplicaIORunning == "Yes" && ss.ReplicaSQLRunning == "Yes") && (result == mysql.ReplicationStopped <==> !(ss.ReplicaIORunning == "Yes" && ss.ReplicaSQLRunning == "Yes") && ss.LastIOErrno == 0 && ss.LastSQLErrno == 0) && (result == mysql.ReplicationRunning || result == mysql.ReplicationStopped || result == mysql.ReplicationError)
 //@ func (*mysql.SlaveStatusStruct).ReplicationState
 //@   ensures obs.state_slave [C04,C10,C11]: (result == mysql.ReplicationRunning <==> ss.SlaveIORunning == "Yes" && ss.SlaveSQLRunning == "Yes") && (result == mysql.ReplicationStopped <==> !(ss.SlaveIORunning == "Yes" && ss.SlaveSQLRunning == "Yes") && ss.LastIOErrno == 0 && ss.LastSQLErrno == 0) && (result == mysql.ReplicationRunning || result == mysql.ReplicationStopped || result == mysql.ReplicationError)
+
+// ---- C13: the difference shown for a replica is computed from its own executed set against its master's, in that order ------
+//@ func (*app/node_state.NodeState).CalcGTIDDiffWithMaster
+//@   requires nonnil [safety]: ns != nil
+//@   ensures C13.calc_missing_state [C13]: (ns.SlaveState == nil || ns.MasterState == nil) ==> result1 != nil
+//@   assert_at GTIDDiff#1 C13.calc_args [C13]: ns.SlaveState != nil && ns.MasterState != nil && textOf(callarg0) == ns.SlaveState.ExecutedGtidSet && textOf(callarg1) == ns.MasterState.ExecutedGtidSet
+//@   ensures C13.calc_answer [C13]: ns.SlaveState != nil && ns.MasterState != nil ==> reached("GTIDDiff", 1) && result0 == resultof("GTIDDiff", 1, 0) && result1 == resultof("GTIDDiff", 1, 1)
